@@ -418,10 +418,28 @@ class Unit:
         if pos < e:
             self.orig(src, pos, e)
 
+    DUR_CONST_RX = re.compile(r"^(pub(?:\([a-z]+\))?\s+)?const\s+(\w+)\s*:\s*Duration\s*=\s*(Duration::from_(secs|millis)\(\s*([\d_\s\*\+\(\)]+?)\s*\))\s*;\s*$", re.S)
+
     def item(self, src, qual, kind=None, extra_attr=None):
-        """Copy a struct/enum/const/type verbatim (E1 only)."""
+        """Copy a struct/enum/const/type verbatim (E1 only).  E13: a `const N: Duration =
+        Duration::from_secs(<integer literal expression>);` cannot be evaluated by Verus in a const
+        context; it is emitted as `exec const` with the same name, type and initializer plus a
+        reflection contract (`dur_ns(N) == <literal> * 10^9`, checked by Verus against the assumed
+        spec of from_secs) and a spec function `N__ns()` with that value, so contracts can name it."""
         it = src.find(qual, kind)
         s, e = it["span"]
+        if it["kind"] == "const":
+            m = self.DUR_CONST_RX.match(src.text(s, e))
+            if m:
+                vis, name, init, unit_, lit = m.group(1) or "", m.group(2), m.group(3), m.group(4), m.group(5)
+                mult = "1_000_000_000" if unit_ == "secs" else "1_000_000"
+                self.raw(f"pub open spec fn {name}__ns() -> nat {{ (({lit}) as nat) * {mult} }}\n")
+                self.raw(f"{vis}exec const {name}: Duration\n    ensures crate::dur_ns({name}) == {name}__ns()\n{{ ")
+                a = src.data.find(init.encode(), s, e)
+                self.orig(src, a, a + len(init.encode()))
+                self.raw(" }\n")
+                self._log("E13", src, s, src.text(s, e)[:70], "exec const + reflection contract + spec fn " + name + "__ns()")
+                return it
         if extra_attr:
             self.raw(extra_attr + "\n")
         self._apply(src, s, e, self._strip_attrs_edits(src, s, e))
@@ -919,6 +937,9 @@ class Unit:
                 reg("callee-precondition", n["path"], n)
             elif n["k"] == "macro" and n["path"].split("::")[-1] in self.PANIC_MACROS:
                 reg("panic-reachable", n["path"].split("::")[-1] + "!", n)
+            elif n["k"] == "macro" and n["path"] == "vec" and b";" in src.data[n["open"]:n["close"]]:
+                # vec![elem; n]: capacity-overflow panic (env/prelude.rs shadows the macro)
+                reg("panic-reachable", "vec!", n)
 
     def _find_helper(self, src, name):
         # `name` is `fn` or `Type::fn`
